@@ -101,7 +101,15 @@ static const char *pickw(const std::vector<W> &mix, Rng &r) {
     return mix.back().op;
 }
 static void add_steps(Plan &p, const std::vector<W> &mix, Rng &r, int n, bool utils_keys = false) {
-    for (int i = 0; i < n; i++) p.steps.push_back(make_step(pickw(mix, r), r, utils_keys));
+    for (int i = 0; i < n; i++) {
+        std::string op = pickw(mix, r);
+        if ((op == "add_obj_alias" || op == "replace_key_alias") && r.chance(2, 3)) {
+            // the alias ops need a detached item that still carries a key: make one (member added, then detached)
+            p.steps.push_back(make_step(r.chance(1, 3) ? "add_obj_cs" : "addh", r, utils_keys));
+            p.steps.push_back(make_step(r.chance(1, 2) ? "detach_ptr" : "detach_idx", r, utils_keys));
+        }
+        p.steps.push_back(make_step(op, r, utils_keys));
+    }
 }
 
 static const std::vector<W> CREATE = {{"new_null", 1}, {"new_true", 1}, {"new_false", 1}, {"new_bool", 1}, {"new_number", 3}, {"new_string", 3}, {"new_array", 5}, {"new_object", 5}, {"bulk_int", 1}, {"bulk_float", 1}, {"bulk_double", 1}, {"bulk_string", 1}};
